@@ -538,7 +538,7 @@ def run():
     obs = [dict(id=t['id'], env=t['env'], disk=t['disk'], vchars=t['vchars'],
                 events=[{k: v for k, v in e.items() if k not in ('crit', 'rc')} for e in t['events']]) for t in traces]
     npar = max(1, min(NCPU - 2, 12))
-    chunk = max(40, (len(obs) + npar - 1) // npar)
+    chunk = min(120, max(40, (len(obs) + npar - 1) // npar))     # many small TLC runs: a slice never needs more than minutes
     parts = [obs[k:k + chunk] for k in range(0, len(obs), chunk)]
     rejected = []
 
@@ -548,7 +548,7 @@ def run():
         vf = os.path.join(ck.tmp, 'vd-%d.json' % k)
         with open(tf, 'w') as fh:
             json.dump(part, fh)
-        r = ck._tlc('RepositoryTrace.tla', 'RepositoryTrace.cfg', [], dict(TRACE_FILE=tf, VERDICT_FILE=vf), 1200, 1)
+        r = ck._tlc('RepositoryTrace.tla', 'RepositoryTrace.cfg', [], dict(TRACE_FILE=tf, VERDICT_FILE=vf), 6000, 1)
         if not os.path.exists(vf):
             raise MachineryError('RepositoryTrace produced no verdict:\n%s' % r['out'][-3000:])
         v = json.load(open(vf))
